@@ -463,7 +463,7 @@ func checkNumberDriver(scan *ssa.Function) map[string]bool {
 		switch x := v.(type) {
 		case *ssa.Call:
 			if sc := x.Call.StaticCallee(); sc != nil {
-				switch sc.Name() {
+				switch pinnedBare(sc) {
 				case "setExp", "trimLeadingZerosInTheIntegerPart", "trimTrailingZerosInTheFractionalPart":
 					return true
 				}
@@ -586,8 +586,8 @@ func c13norm(c *core.Ctx) {
 			for _, in := range b.Instrs {
 				if call, ok := in.(*ssa.Call); ok {
 					if sc := call.Call.StaticCallee(); sc != nil {
-						if isStep(sc.Name()) {
-							where[sc.Name()] = b
+						if isStep(pinnedBare(sc)) {
+							where[pinnedBare(sc)] = b
 						} else if core.FuncPkgPath(sc) == core.FuncPkgPath(f) {
 							for k := range stepsOf(sc, depth+1) {
 								where[k] = b
@@ -628,8 +628,8 @@ func c13norm(c *core.Ctx) {
 		for _, in := range b.Instrs {
 			if call, ok := in.(*ssa.Call); ok {
 				if sc := call.Call.StaticCallee(); sc != nil {
-					if isStep(sc.Name()) {
-						steps[sc.Name()] = b
+					if isStep(pinnedBare(sc)) {
+						steps[pinnedBare(sc)] = b
 					} else if core.FuncPkgPath(sc) == core.FuncPkgPath(scan) {
 						for k := range stepsOf(sc, 1) {
 							steps[k] = b
